@@ -34,6 +34,8 @@ def main(argv):
     per_run = float(os.environ.get('DDSIM_RUN_LIMIT', '30'))
     hs = int(os.environ['PYTHONHASHSEED'])
     out = sys.stdout
+    shrunk_kinds = {}
+    max_shrinks = int(os.environ.get('DDSIM_SHRINKS_PER_BATCH', '3'))
     for idx in range(start, start + count):
         seed = prng.mix(vseed, prop, idx)
         cfg = profiles.make_cfg(prop, seed, tier, idx)
@@ -53,9 +55,17 @@ def main(argv):
         if f is not None and not res['harness_error']:
             # minimise (deterministic in-process re-executions, same hash seed)
             signal.setitimer(signal.ITIMER_REAL, 240)
+            kind = (f['op'], f['oracle'], tuple(f['props']))
+            budget = int(os.environ.get('DDSIM_SHRINK', '300'))
+            # many runs failing the same way: minimise the first few only
+            if shrunk_kinds.get(kind, 0) >= 1 or len(shrunk_kinds) >= max_shrinks:
+                budget = 0
+            shrunk_kinds[kind] = shrunk_kinds.get(kind, 0) + 1
             try:
-                trace, f2, tries = runner.shrink(prop, cfg, seed, res['trace'], f,
-                                                 budget=int(os.environ.get('DDSIM_SHRINK', '300')))
+                if budget:
+                    trace, f2, tries = runner.shrink(prop, cfg, seed, res['trace'], f, budget=budget)
+                else:
+                    trace, f2, tries = res['trace'], f, 0
             except RunTimeout:
                 trace, f2, tries = res['trace'], f, -1
             finally:
